@@ -25,11 +25,10 @@ private def sim2 : Sim :=
   { gtime := 0, clock := 0, vars := [(["p", "a"], .int 0)],
     timeline := initializeTimeline [ev 0 ["p", "a"] 1, ev 10 ["p", "a"] 3, ev 5 ["p", "a"] 2] }
 
-/-- evaluate the model on concrete data (`dmcl` is defined by well-founded recursion, so `rfl`
-does not unfold it; `simp` with the defining equations does) -/
+/-- evaluate the model on concrete data -/
 local macro "eval_model" : tactic => `(tactic|
-  simp [ev, intOf, sim1, sim2, tick, nextUpdate, popDue, applyChanges, changeTree, chain, leafSet,
-    dmcl, KV.lookup, KV.set, combineLists, Val.pyIn, Val.pyEq, applyClock, applyVars, applyLeaf,
+  simp [ev, intOf, sim1, sim2, tick, nextUpdate, popDue, applyChanges, nestedSet, leafSet,
+    KV.lookup, KV.set, applyClock, applyVars, applyLeaf,
     look, resolve, Except.toOption, initializeTimeline, insertEvent, PD.update, PD.set, specTicks,
     specTick, setVars, lastWrite, due])
 
@@ -193,13 +192,13 @@ example : (leftSeq [0, 1, 6] (initializeTimeline
 
 /-! ## one tick, a whole run -/
 
-/-- **A tick applies the last due write.** Full statement: for all declared variables and all
-event values, one invocation of the timeline process for `dt` followed by the application of its
-update advances both clocks by `dt`, pops the due events, and sets every declared variable to
-the LAST value the popped events (in time order) write to it — `specTick`.
-Proved here under `WFTimeline`: every written value is a scalar (not a list, not a dict). Without
-that hypothesis the statement is false for the code as it is — see `compound_collision_combines`. -/
-theorem tick_sets_last_write_partial (V : List Path) (hV : WFVars V) (s : Sim)
+/-- **A tick applies the last due write.** For all declared variables and ALL event values
+(scalars, lists, dictionaries alike): one invocation of the timeline process for `dt` followed by
+the application of its update advances both clocks by `dt`, pops the due events, and sets every
+declared variable to the LAST value the popped events (in time order) write to it — `specTick`.
+Hypotheses: the declared variable paths are non-empty, prefix-free and not under `global`
+(`WFVars`), and the events write declared variables only (`WFTimeline`). -/
+theorem tick_sets_last_write (V : List Path) (hV : WFVars V) (s : Sim)
     (hT : WFTimeline V s.timeline) (hvars : ∀ pv ∈ s.vars, pv.1 ∈ V) (dt : Int) :
     tick dt s = .ok (specTick dt s) :=
   tick_eq_spec V hV s hT hvars dt
@@ -208,13 +207,17 @@ example : (tick 5 sim1).toOption.map
           (fun s => (s.clock, s.vars.map (fun pv => intOf pv.2), s.timeline.map (·.time)))
     = some (12, [some 3, some 2], [9]) := by eval_model
 
-/-- Witness (candidate finding): two events due in the same tick that write LIST values to the
-same variable — the later value does not win, `deep_merge_combine_lists` combines the two. -/
-theorem compound_collision_combines :
-    (tick 1 { gtime := 0, clock := 9, vars := [(["p", "a"], .int 0)],
-              timeline := [{ time := 1, changes := [(["p", "a"], .list [.int 1, .int 2])] },
-                           { time := 2, changes := [(["p", "a"], .list [.int 2, .int 3])] }] }).toOption.map
-      (fun s => s.vars) = some [(["p", "a"], .list [.int 1, .int 2, .int 3])] := by eval_model
+/-- Regression (the defect repaired by 00d1fc4): two events due in the same tick that write LIST
+values to the same variable — the later value wins, `[1, 2]` then `[2, 3]` gives `[2, 3]` (the old
+code combined them to `[1, 2, 3]`); likewise for dictionaries. -/
+theorem compound_collision_later_wins :
+    (tick 1 { gtime := 0, clock := 9, vars := [(["p", "a"], .int 0), (["p", "b"], .int 0)],
+              timeline := [{ time := 1, changes := [(["p", "a"], .list [.int 1, .int 2]),
+                                                   (["p", "b"], .dict [("u", .int 1)])] },
+                           { time := 2, changes := [(["p", "a"], .list [.int 2, .int 3]),
+                                                   (["p", "b"], .dict [("v", .int 2)])] }] }).toOption.map
+      (fun s => s.vars) = some [(["p", "a"], .list [.int 2, .int 3]),
+                                (["p", "b"], .dict [("v", .int 2)])] := by eval_model
 
 /-- **A whole run** of ticks of any lengths equals the specification run `specTicks` (each
 tick: pop the due events, apply their last writes, advance the clocks). -/
@@ -226,8 +229,7 @@ theorem run_eq_spec (V : List Path) (hV : WFVars V) (dts : List Int) (s : Sim)
 example : runTicks [2, 2, 2, 1] sim2 = .ok (specTicks [2, 2, 2, 1] sim2) :=
   run_eq_spec [["p", "a"]]
     ⟨by simp, by simp, by simp⟩ _ sim2
-    ⟨by simp [sim2, ev, initializeTimeline, insertEvent], by
-      simp [sim2, ev, initializeTimeline, insertEvent, Scalar, Val.isDict, Val.isList]⟩
+    ⟨by simp [sim2, ev, initializeTimeline, insertEvent]⟩
     (by simp [sim2])
 
 /-- **Fire-once in an engine run.** After the ticks `pre` the store clock is the initial clock
